@@ -3,18 +3,19 @@ package main
 import (
 	"fmt"
 	"go/token"
+	"strings"
 
 	"golang.org/x/tools/go/ssa"
 )
 
 func init() {
 	register(&Property{
-		ID:        "C22",
-		Roots:     []string{"overlord/ifacestate"},
-		Technique: "do/undo pairing (task-data keys) of the interface manager's handler pairs; ordering and guarded-sink rules on the SSA CFG of doConnect, undoConnect, doDisconnect, undoDisconnect (repository effect, profile regeneration, persisted \"conns\" write); who-may-write of the \"conns\" state key",
+		ID:          "C22",
+		Roots:       []string{"overlord/ifacestate"},
+		Technique:   "do/undo pairing (task-data keys) of the interface manager's handler pairs; ordering and guarded-sink rules on the SSA CFG of doConnect, undoConnect, doDisconnect, undoDisconnect (repository effect, profile regeneration, persisted \"conns\" write); who-may-write of the \"conns\" state key",
 		Explanation: "Structural necessary conditions for 'interface connections are transactional: the in-memory repository, the persisted connection state and the security profiles move together': (R1) key agreement of the interface manager's (do, undo) pairs (old-conn etc.); (R2) doConnect persists the connection only after the repository connect and (unless delayed) both profile set-ups succeeded - so a failure leaves nothing persisted - and after the repository connect every failing return runs the deferred repository disconnect; doDisconnect saves old-conn before it mutates or removes anything and before the repository disconnect, and persists only after the repository disconnect and the profile regeneration succeeded; (R3) undoDisconnect reconnects the repository before regenerating the profiles (so they are generated from the restored connection), regenerates both sides, and restores exactly the saved old-conn before persisting; undoConnect restores the saved old-conn or deletes the entry, disconnects the repository, and regenerates both sides' profiles unless the set-up was delayed; (R4) reloadConnections connects only connections that are neither undesired nor hotplug-gone; (R5) the \"conns\" state key is written only through setConns.",
-		NotDecided: "equality of \"conns\" and the repository after arbitrary histories; the backends' reaction to a setup call; hotplug sequencing.",
-		Run:        runC22,
+		NotDecided:  "equality of \"conns\" and the repository after arbitrary histories; the backends' reaction to a setup call; hotplug sequencing.",
+		Run:         runC22,
 	})
 }
 
@@ -73,10 +74,10 @@ func runC22(c *Ctx) {
 	isConnsMutation := func(in ssa.Instruction) bool {
 		switch x := in.(type) {
 		case *ssa.MapUpdate:
-			return VRes(0, ToFn(P.FuncObj(pkg + ".getConns")))(x.Map)
+			return VRes(0, ToFn(P.FuncObj(pkg+".getConns")))(x.Map)
 		case *ssa.Call:
 			if bi, ok := x.Call.Value.(*ssa.Builtin); ok && bi.Name() == "delete" {
-				return VRes(0, ToFn(P.FuncObj(pkg + ".getConns")))(x.Call.Args[0])
+				return VRes(0, ToFn(P.FuncObj(pkg+".getConns")))(x.Call.Args[0])
 			}
 		}
 		return false
@@ -268,6 +269,11 @@ func runC22(c *Ctx) {
 		for _, sc := range CallSites(fn, stSet) {
 			if k, ok := ConstString(CallArgs(sc)[0]); ok && k == "conns" {
 				nW++
+				if fn.Pkg != nil && strings.HasSuffix(fn.Pkg.Pkg.Path(), "/overlord/patch") {
+					// state-format migration run by patch.Apply at start-up, before the managers exist
+					c.Holds("state-key:conns#writer:"+SSAFuncName(fn), sc.Pos(), "state-format migration run by patch.Apply before the managers start")
+					continue
+				}
 				c.Check(SSAFuncName(fn) == pkg+".setConns", "state-key:conns#writer:"+SSAFuncName(fn), sc.Pos(), "written by setConns", "\"conns\" is written by "+SSAFuncName(fn)+", bypassing setConns")
 			}
 		}
